@@ -11,6 +11,10 @@
 (*   - [ledger_eq] = Permutation of (id,(layer,size)) lists.                  *)
 (*   - theorems are stated for every initial heap with [wf h] and every k;   *)
 (*     they are in fact proved for every value of the fault fuel.            *)
+(*   - plain names (init, assign, iter_ctor, copy_ctor, ...) denote the      *)
+(*     CURRENT code of /repo (after commits b69eb94 and 53a83c0); the        *)
+(*     program text before those commits is kept as old_init, old_assign,    *)
+(*     old_iter_ctor, with its refutations as old_* theorems.                *)
 (* ------------------------------------------------------------------------- *)
 From Coq Require Import List NArith Arith Lia Bool Permutation.
 From PPLV Require Import Except.Alloc.
@@ -143,10 +147,11 @@ Proof.
 Qed.
 
 (* ---- (a) CO_Tree::init(n)   CO_Tree.cc:608 ----
-   AS WRITTEN ([fixed] = false): the five fields are reset, the allocations are
-   made, and refresh_cached_iterators() is called only at the very end, i.e. NOT
-   on the two exceptional exits.  [fixed] = true is the minimal fix: one more
-   refresh_cached_iterators() right after the five fields are reset. *)
+   [fixed] = true is the CURRENT code (commit b69eb94): the five fields are
+   reset, refresh_cached_iterators() is called, the allocations are made, and
+   refresh_cached_iterators() is called again at the very end.
+   [fixed] = false is the program text before commit b69eb94: no refresh after
+   the reset, hence none on the two exceptional exits. *)
 Definition init_gen (fixed : bool) (n : N) : M tree unit :=
   modify reset_tree ;;;            (* indexes = data = 0; size_ = reserved_size = max_depth = 0 *)
   (if fixed then modify refresh else ret tt) ;;;
@@ -165,8 +170,10 @@ Definition init_gen (fixed : bool) (n : N) : M tree unit :=
      modify (fun t => mkTree (indexes t) (Some bd) r (elems t) (cend t))) ;;;
   modify refresh.                  (* refresh_cached_iterators(); *)
 
-Definition init : N -> M tree unit := init_gen false.
-Definition init_fixed : N -> M tree unit := init_gen true.
+(* the current code *)
+Definition init : N -> M tree unit := init_gen true.
+(* program text before commit b69eb94 / 53a83c0 *)
+Definition old_init : N -> M tree unit := init_gen false.
 
 Lemma init_gen_sat : forall fixed n s h X,
   Lg X h ->
@@ -234,17 +241,18 @@ Lemma init_sat : forall n s h X,
       (fun _ s' h' => tree_inv s' /\ elems s' = [] /\
                       rsz s' = (if N.eqb n 0 then 0 else rsz_for n) /\
                       Lg (owned_tree s' ++ X) h')
-      (fun s' h' => s' = reset_tree s /\ Lg X h').
-Proof. intros. apply (init_gen_sat false); assumption. Qed.
+      (fun s' h' => s' = empty_tree /\ Lg X h').
+Proof. intros. apply (init_gen_sat true); assumption. Qed.
 
-Lemma init_fixed_sat : forall n s h X,
+(* program text before commit b69eb94 / 53a83c0 *)
+Lemma old_init_sat : forall n s h X,
   Lg X h ->
-  sat (init_fixed n s h)
+  sat (old_init n s h)
       (fun _ s' h' => tree_inv s' /\ elems s' = [] /\
                       rsz s' = (if N.eqb n 0 then 0 else rsz_for n) /\
                       Lg (owned_tree s' ++ X) h')
-      (fun s' h' => s' = empty_tree /\ Lg X h').
-Proof. intros. apply (init_gen_sat true); assumption. Qed.
+      (fun s' h' => s' = reset_tree s /\ Lg X h').
+Proof. intros. apply (init_gen_sat false); assumption. Qed.
 
 (* ---- (b) CO_Tree::destroy()   CO_Tree.cc:650 ----
    for i = 1..reserved_size: if used, destroy data[i]  (ascending position:
@@ -400,19 +408,50 @@ Proof. induction src; intros; cbn; auto. Qed.
 Lemma zip_pos_snd : forall src ps, map snd (zip_pos ps src) = src.
 Proof. induction src; intros; cbn; [reflexivity | f_equal; auto]. Qed.
 
-(* The body, on the object under construction.  NOTE: the C++ sets
+(* ---- program text before commit b69eb94 / 53a83c0 ----
+   The body, on the object under construction.  The old C++ set
    root.index() = i.index() before constructing the element; indexes[] contents
-   are not modelled, [elems] lists the CONSTRUCTED elements.  There is no
-   try/catch around the loop. *)
-Definition iter_fill (src : list N) : M tree unit :=
+   are not modelled, [elems] lists the CONSTRUCTED elements.  There was no
+   try/catch around the element construction. *)
+Definition old_iter_fill (src : list N) : M tree unit :=
   t <- get ;;
   copy_elems (zip_pos (fill_positions (N.of_nat (length src)) (rsz t)) src).
+
+Definition old_iter_body (src : list N) : M tree unit :=
+  let n := N.of_nat (length src) in
+  if N.eqb n 0 then old_init 0
+  else
+    (* reserved_size = ...; (field write, then init(reserved_size)) *)
+    modify (fun t => mkTree (indexes t) (data t) (iter_reserved n) (elems t) (cend t)) ;;;
+    t0 <- get ;;
+    old_init (rsz t0) ;;;
+    old_iter_fill src.
+
+Definition old_iter_ctor (src : list N) : M unit tree :=
+  construct empty_tree (old_iter_body src).
+
+(* ---- CURRENT code (commit 53a83c0): each element is constructed inside
+     try { new (&( *root)) data_type( *i); } catch (...) { destroy(); throw; }
+   and root.index() = i.index() is set AFTER the construction, so on failure of
+   element j destroy() walks positions 1..reserved ascending, destroys the j-1
+   constructed elements, then delete[] indexes, then deallocate data. ---- *)
+Fixpoint copy_elems_g (ps : list (N * N)) : M tree unit :=
+  match ps with
+  | [] => ret tt
+  | (p, lb) :: rest =>
+      b <- try_catch (alloc LGmp (limb_bytes lb)) (destroy ;;; throw) ;;
+      modify (add_elem p b (limb_bytes lb)) ;;;         (* root.index() = i.index() *)
+      copy_elems_g rest
+  end.
+
+Definition iter_fill (src : list N) : M tree unit :=
+  t <- get ;;
+  copy_elems_g (zip_pos (fill_positions (N.of_nat (length src)) (rsz t)) src).
 
 Definition iter_body (src : list N) : M tree unit :=
   let n := N.of_nat (length src) in
   if N.eqb n 0 then init 0
   else
-    (* reserved_size = ...; (field write, then init(reserved_size)) *)
     modify (fun t => mkTree (indexes t) (data t) (iter_reserved n) (elems t) (cend t)) ;;;
     t0 <- get ;;
     init (rsz t0) ;;;
@@ -420,25 +459,6 @@ Definition iter_body (src : list N) : M tree unit :=
 
 Definition iter_ctor (src : list N) : M unit tree :=
   construct empty_tree (iter_body src).
-
-(* Minimal fix: try { fill loop } catch (...) { destroy(); throw; } where,
-   because root.index() is set BEFORE the element is constructed, the slot
-   whose construction failed must first be reset to unused (or the element
-   constructed before its index is set).  Modelled: on failure of element j
-   the j-1 constructed elements are destroyed in ascending dfs position, then
-   delete[] indexes, deallocate data, rethrow. *)
-Definition iter_body_fixed (src : list N) : M tree unit :=
-  let n := N.of_nat (length src) in
-  if N.eqb n 0 then init 0
-  else
-    modify (fun t => mkTree (indexes t) (data t) (iter_reserved n) (elems t) (cend t)) ;;;
-    t0 <- get ;;
-    init (rsz t0) ;;;
-    try_catch (iter_fill src)
-      (t <- get ;; release (sort_by fst (elems t)) t ;;; throw).
-
-Definition iter_ctor_fixed (src : list N) : M unit tree :=
-  construct empty_tree (iter_body_fixed src).
 
 (* ---------- helpers to read results off the ledger predicate ---------- *)
 
@@ -500,11 +520,14 @@ Qed.
 
 (* ---------- (a) init : theorem ---------- *)
 
+(* the old_ theorems of this block are about the program text before commit
+   b69eb94 / 53a83c0; cotree_init_unwind_balanced is about the current code *)
+
 (* As written: on an exceptional exit the five fields are those of the empty tree
    but the cached end iterators are STALE (those of the tree before the call). *)
-Theorem cotree_init_unwind_balanced : forall n k h s0,
+Theorem old_cotree_init_unwind_balanced : forall n k h s0,
   wf h ->
-  match init n s0 (arm k h) with
+  match old_init n s0 (arm k h) with
   | Ret _ t h' => wf h' /\ ledger_eq (live h') (owned_tree t ++ live h)
                   /\ tree_inv t /\ NoDup (map fst (owned_tree t))
   | Exn t h' => wf h' /\ ledger_eq (live h') (live h) /\ t = reset_tree s0
@@ -512,8 +535,8 @@ Theorem cotree_init_unwind_balanced : forall n k h s0,
   end.
 Proof.
   intros n k h s0 W.
-  pose proof (init_sat n s0 (arm k h) (live h) (Lg_arm k _ _ (Lg_self h W))) as H.
-  destruct (init n s0 (arm k h)) as [a s' h'|s' h'|h']; cbn [sat] in H.
+  pose proof (old_init_sat n s0 (arm k h) (live h) (Lg_arm k _ _ (Lg_self h W))) as H.
+  destruct (old_init n s0 (arm k h)) as [a s' h'|s' h'|h']; cbn [sat] in H.
   - destruct H as [I [_ [_ HL]]]. apply Lg_out in HL. tauto.
   - destruct H as [-> [W' P]]. auto.
   - exact H.
@@ -526,28 +549,29 @@ Proof.
   - intros H. unfold reset_tree. rewrite H. apply tree_inv_empty.
 Qed.
 
-(* "If this throws, *this will be the empty tree" (comment in init): FALSE for
+(* program text before commit b69eb94 / 53a83c0:
+   "If this throws, *this will be the empty tree" (comment in init): FALSE for
    the cached iterators *)
-Definition cotree_init_usable_after_full : Prop :=
+Definition old_cotree_init_usable_after_full : Prop :=
   forall n k h s0,
   wf h ->
-  match init n s0 (arm k h) with
+  match old_init n s0 (arm k h) with
   | Exn t _ => tree_inv t
   | _ => True
   end.
 
 (* witness: the fields of a destroyed tree of reserved size 1 (as operator=
    leaves them before calling init), first request fails *)
-Theorem cotree_init_usable_after_refuted :
+Theorem old_cotree_init_usable_after_refuted :
   exists n s0 k h, wf h /\ exists t h',
-    init n s0 (arm k h) = Exn t h' /\ ~ tree_inv t.
+    old_init n s0 (arm k h) = Exn t h' /\ ~ tree_inv t.
 Proof.
   exists 3, (mkTree (Some 0%nat) (Some 1%nat) 1 [] (Some 0%nat, 1)), 1%nat, empty_heap.
   split; [exact wf_empty|]. eexists _, _. split; [vm_compute; reflexivity|].
   intros [_ [_ [_ H]]]. cbn in H. discriminate H.
 Qed.
 
-Theorem cotree_init_usable_after_full_refuted : ~ cotree_init_usable_after_full.
+Theorem old_cotree_init_usable_after_full_refuted : ~ old_cotree_init_usable_after_full.
 Proof.
   intro F.
   specialize (F 3 1%nat empty_heap (mkTree (Some 0%nat) (Some 1%nat) 1 [] (Some 0%nat, 1)) wf_empty).
@@ -555,9 +579,9 @@ Proof.
 Qed.
 
 (* with the minimal fix the receiver is the (valid) empty tree on failure *)
-Theorem cotree_init_fixed_unwind_balanced : forall n k h s0,
+Theorem cotree_init_unwind_balanced : forall n k h s0,
   wf h ->
-  match init_fixed n s0 (arm k h) with
+  match init n s0 (arm k h) with
   | Ret _ t h' => wf h' /\ ledger_eq (live h') (owned_tree t ++ live h)
                   /\ tree_inv t /\ NoDup (map fst (owned_tree t))
   | Exn t h' => wf h' /\ ledger_eq (live h') (live h) /\ t = empty_tree /\ tree_inv t
@@ -565,8 +589,8 @@ Theorem cotree_init_fixed_unwind_balanced : forall n k h s0,
   end.
 Proof.
   intros n k h s0 W.
-  pose proof (init_fixed_sat n s0 (arm k h) (live h) (Lg_arm k _ _ (Lg_self h W))) as H.
-  destruct (init_fixed n s0 (arm k h)) as [a s' h'|s' h'|h']; cbn [sat] in H.
+  pose proof (init_sat n s0 (arm k h) (live h) (Lg_arm k _ _ (Lg_self h W))) as H.
+  destruct (init n s0 (arm k h)) as [a s' h'|s' h'|h']; cbn [sat] in H.
   - destruct H as [I [_ [_ HL]]]. apply Lg_out in HL. tauto.
   - destruct H as [-> [W' P]]. split; [exact W'|]. split; [exact P|].
     split; [reflexivity | apply tree_inv_empty].
@@ -576,31 +600,31 @@ Qed.
 Example cotree_init_hyp_sat : wf empty_heap.
 Proof. exact wf_empty. Qed.
 
-(* ---------- (c) iterator constructor, as written ---------- *)
+(* ---------- (c) iterator constructor: program text before commit b69eb94 / 53a83c0 ---------- *)
 
-(* what holds for the code as written: a normal return is balanced; an
+(* what held for the old text: a normal return is balanced; an
    exceptional exit never double-frees, but the object's blocks may stay live *)
-Lemma iter_body_sat : forall src s h X,
+Lemma old_iter_body_sat : forall src s h X,
   Lg X h ->
-  sat (iter_body src s h)
+  sat (old_iter_body src s h)
       (fun _ s' h' => tree_inv s' /\ Lg (owned_tree s' ++ X) h')
       (fun s' h' => exists extra, Lg (extra ++ X) h').
 Proof.
-  intros src s h X HL. unfold iter_body. cbv zeta.
+  intros src s h X HL. unfold old_iter_body. cbv zeta.
   destruct (N.eqb (N.of_nat (length src)) 0) eqn:En.
-  - eapply sat_conseq; [apply init_sat; exact HL| |].
+  - eapply sat_conseq; [apply old_init_sat; exact HL| |].
     + cbn beta. intros _ s' h' [I [_ [_ H]]]. auto.
     + cbn beta. intros s' h' [_ H]. exists []. exact H.
   - rewrite bind_modify, bind_get. cbn [rsz].
     eapply sat_bind.
-    + apply init_sat; exact HL.
+    + apply old_init_sat; exact HL.
     + cbn beta. intros s' h' [_ H]. exists []. exact H.
     + cbn beta. intros _ s1 h1 [I [He [Hr HL1]]].
       assert (Hnz : rsz s1 <> 0).
       { rewrite Hr. destruct (N.eqb_spec (iter_reserved (N.of_nat (length src))) 0) as [E|E].
         - exfalso; exact (iter_reserved_nonzero _ E).
         - apply rsz_for_nonzero. }
-      unfold iter_fill. rewrite bind_get.
+      unfold old_iter_fill. rewrite bind_get.
       eapply sat_conseq.
       * apply copy_elems_sat with (X := frame_blks s1 ++ X).
         rewrite He. cbn [elems_blks flat_map app].
@@ -613,9 +637,9 @@ Proof.
         eapply Lg_perm; [exact HL2|]. rewrite <- (frame_blks_eq _ _ F). apply owned_perm.
 Qed.
 
-Theorem cotree_iter_ctor_unwind_partial : forall src k h,
+Theorem old_cotree_iter_ctor_unwind_partial : forall src k h,
   wf h ->
-  match iter_ctor src tt (arm k h) with
+  match old_iter_ctor src tt (arm k h) with
   | Ret t _ h' => wf h' /\ ledger_eq (live h') (owned_tree t ++ live h)
                   /\ tree_inv t /\ NoDup (map fst (owned_tree t))
   | Exn _ h' => wf h' /\ exists extra, ledger_eq (live h') (extra ++ live h)
@@ -623,32 +647,32 @@ Theorem cotree_iter_ctor_unwind_partial : forall src k h,
   end.
 Proof.
   intros src k h W.
-  assert (H : sat (iter_ctor src tt (arm k h))
+  assert (H : sat (old_iter_ctor src tt (arm k h))
                   (fun t _ h' => tree_inv t /\ Lg (owned_tree t ++ live h) h')
                   (fun _ h' => exists extra, Lg (extra ++ live h) h')).
-  { unfold iter_ctor. eapply sat_construct.
-    - apply iter_body_sat. apply Lg_arm. apply Lg_self. exact W.
+  { unfold old_iter_ctor. eapply sat_construct.
+    - apply old_iter_body_sat. apply Lg_arm. apply Lg_self. exact W.
     - cbn beta. intros _ s' h' H; exact H.
     - cbn beta. intros s' h' H; exact H. }
-  destruct (iter_ctor src tt (arm k h)) as [t u h'|u h'|h']; cbn [sat] in H.
+  destruct (old_iter_ctor src tt (arm k h)) as [t u h'|u h'|h']; cbn [sat] in H.
   - destruct H as [I HL]. apply Lg_out in HL. tauto.
   - destruct H as [extra [W' P]]. split; [exact W'|]. exists extra. exact P.
   - exact H.
 Qed.
 
-(* The full "unwind balanced" statement is FALSE for the constructor as written *)
-Definition cotree_iter_ctor_unwind_balanced_full : Prop :=
+(* The full "unwind balanced" statement is FALSE for the old constructor *)
+Definition old_cotree_iter_ctor_unwind_balanced_full : Prop :=
   forall src k h,
   wf h ->
-  match iter_ctor src tt (arm k h) with
+  match old_iter_ctor src tt (arm k h) with
   | Ret t _ h' => wf h' /\ ledger_eq (live h') (owned_tree t ++ live h) /\ tree_inv t
   | Exn _ h' => wf h' /\ ledger_eq (live h') (live h)
   | Bad _ => False
   end.
 
-Theorem cotree_iter_ctor_leak_refuted :
+Theorem old_cotree_iter_ctor_leak_refuted :
   exists src k h, wf h /\ exists h',
-    iter_ctor src tt (arm k h) = Exn tt h' /\ ~ ledger_eq (live h') (live h).
+    old_iter_ctor src tt (arm k h) = Exn tt h' /\ ~ ledger_eq (live h') (live h).
 Proof.
   exists [1; 1], 3%nat, empty_heap. split; [exact wf_empty|].
   eexists. split; [vm_compute; reflexivity|].
@@ -656,43 +680,65 @@ Proof.
   apply Permutation_nil in P. discriminate P.
 Qed.
 
-Theorem cotree_iter_ctor_unwind_balanced_refuted :
-  ~ cotree_iter_ctor_unwind_balanced_full.
+Theorem old_cotree_iter_ctor_unwind_balanced_refuted :
+  ~ old_cotree_iter_ctor_unwind_balanced_full.
 Proof.
   intro F. specialize (F [1; 1] 3%nat empty_heap wf_empty).
   vm_compute in F. destruct F as [_ P].
   apply Permutation_sym in P. apply Permutation_nil in P. discriminate P.
 Qed.
 
-(* ---------- (c') the fixed iterator constructor ---------- *)
+(* ---------- (c') the CURRENT iterator constructor (commit 53a83c0) ---------- *)
 
-Lemma iter_fill_sat : forall src s1 h1 X,
-  tree_inv s1 -> elems s1 = [] -> rsz s1 <> 0 ->
-  Lg (owned_tree s1 ++ X) h1 ->
-  sat (iter_fill src s1 h1)
-      (fun _ s2 h2 => tree_inv s2 /\ Lg (owned_tree s2 ++ X) h2)
-      (fun s2 h2 => Lg (owned_tree s2 ++ X) h2).
+Lemma owned_add_elem : forall p b sz s X,
+  Permutation ((b, (LGmp, sz)) :: owned_tree s ++ X) (owned_tree (add_elem p b sz s) ++ X).
 Proof.
-  intros src s1 h1 X I He Hnz HL1. unfold iter_fill. rewrite bind_get.
-  eapply sat_conseq.
-  - apply copy_elems_sat with (X := frame_blks s1 ++ X).
-    rewrite He. cbn [elems_blks flat_map app].
-    unfold owned_tree in HL1. rewrite He in HL1. cbn [elems_blks flat_map] in HL1.
-    rewrite app_nil_r in HL1. exact HL1.
-  - cbn beta. intros _ s2 h2 [F [_ HL2]]. split.
-    + eapply tree_inv_frame; eassumption.
-    + eapply Lg_perm; [exact HL2|]. rewrite <- (frame_blks_eq _ _ F). apply owned_perm.
-  - cbn beta. intros s2 h2 [F HL2].
-    eapply Lg_perm; [exact HL2|]. rewrite <- (frame_blks_eq _ _ F). apply owned_perm.
+  intros p b sz s X. unfold owned_tree, add_elem. cbn [indexes data rsz elems].
+  unfold frame_blks. cbn [indexes data rsz]. fold (frame_blks s).
+  cbn [elems_blks flat_map elem_blk snd app]. fold (elems_blks (elems s)).
+  rewrite <- !app_assoc. cbn [app]. apply Permutation_middle.
 Qed.
 
-Lemma iter_body_fixed_sat : forall src s h X,
+Lemma copy_elems_g_sat : forall ps s h X,
+  tree_inv s -> rsz s <> 0 ->
+  Lg (owned_tree s ++ X) h ->
+  sat (copy_elems_g ps s h)
+      (fun _ s' h' => tree_inv s' /\ frame_eq s s' /\
+                      map fst (elems s') = rev (map fst ps) ++ map fst (elems s) /\
+                      Lg (owned_tree s' ++ X) h')
+      (fun s' h' => Lg X h').
+Proof.
+  induction ps as [|[p lb] rest IH]; intros s h X I Hnz HL; cbn [copy_elems_g].
+  - cbn [ret sat]. split; [exact I|]. split; [apply frame_eq_refl|]. split; [reflexivity | exact HL].
+  - eapply sat_bind with (E1 := fun s' h' => Lg X h').
+    + eapply sat_try.
+      * apply alloc_sat; exact HL.
+      * cbn beta. intros a s' h' H; exact H.
+      * cbn beta. intros s1 h1 [-> HL1]. eapply sat_bind.
+        -- apply destroy_sat; [exact I | exact HL1].
+        -- intros ? ? F; contradiction.
+        -- cbn beta. intros _ s2 h2 [_ HL2]. cbn. exact HL2.
+    + intros s' h' H; exact H.
+    + cbn beta. intros b s1 h1 [-> HL1]. rewrite bind_modify.
+      assert (F : frame_eq s (add_elem p b (limb_bytes lb) s)) by (repeat split).
+      eapply sat_conseq.
+      * apply IH with (X := X).
+        -- eapply tree_inv_frame; [exact I | exact Hnz | exact F].
+        -- cbn [add_elem rsz]. exact Hnz.
+        -- eapply Lg_perm; [exact HL1 | apply owned_add_elem].
+      * cbn beta. intros _ s2 h2 [I2 [F2 [Hp HL2]]].
+        split; [exact I2|]. split; [exact (frame_eq_trans _ _ _ F F2)|]. split; [|exact HL2].
+        rewrite Hp. cbn [add_elem elems map fst rev]. rewrite <- app_assoc. reflexivity.
+      * cbn beta. intros s2 h2 H; exact H.
+Qed.
+
+Lemma iter_body_sat : forall src s h X,
   Lg X h ->
-  sat (iter_body_fixed src s h)
+  sat (iter_body src s h)
       (fun _ s' h' => tree_inv s' /\ Lg (owned_tree s' ++ X) h')
       (fun s' h' => Lg X h').
 Proof.
-  intros src s h X HL. unfold iter_body_fixed. cbv zeta.
+  intros src s h X HL. unfold iter_body. cbv zeta.
   destruct (N.eqb (N.of_nat (length src)) 0) eqn:En.
   - eapply sat_conseq; [apply init_sat; exact HL| |].
     + cbn beta. intros _ s' h' [I [_ [_ H]]]. auto.
@@ -706,19 +752,18 @@ Proof.
       { rewrite Hr. destruct (N.eqb_spec (iter_reserved (N.of_nat (length src))) 0) as [E|E].
         - exfalso; exact (iter_reserved_nonzero _ E).
         - apply rsz_for_nonzero. }
-      eapply sat_try.
-      * apply iter_fill_sat; eassumption.
-      * cbn beta. intros a s' h' H; exact H.
-      * cbn beta. intros s2 h2 HL2. rewrite bind_get.
-        eapply sat_bind.
-        -- eapply release_sat; [apply elems_blks_sort | exact HL2].
-        -- intros ? ? F; contradiction.
-        -- cbn beta. intros _ s3 h3 [_ HL3]. exact HL3.
+      unfold iter_fill. rewrite bind_get.
+      eapply sat_conseq.
+      * apply copy_elems_g_sat; eassumption.
+      * cbn beta. intros _ s2 h2 [I2 [_ [_ HL2]]]. split; assumption.
+      * cbn beta. intros s2 h2 H; exact H.
 Qed.
 
-Theorem cotree_iter_ctor_fixed_unwind_balanced : forall src k h,
+(* the CURRENT constructor: for every k a normal return is balanced and an
+   exceptional exit leaves the ledger unchanged *)
+Theorem cotree_iter_ctor_unwind_balanced : forall src k h,
   wf h ->
-  match iter_ctor_fixed src tt (arm k h) with
+  match iter_ctor src tt (arm k h) with
   | Ret t _ h' => wf h' /\ ledger_eq (live h') (owned_tree t ++ live h)
                   /\ tree_inv t /\ NoDup (map fst (owned_tree t))
   | Exn _ h' => wf h' /\ ledger_eq (live h') (live h)
@@ -726,20 +771,21 @@ Theorem cotree_iter_ctor_fixed_unwind_balanced : forall src k h,
   end.
 Proof.
   intros src k h W.
-  assert (H : sat (iter_ctor_fixed src tt (arm k h))
+  assert (H : sat (iter_ctor src tt (arm k h))
                   (fun t _ h' => tree_inv t /\ Lg (owned_tree t ++ live h) h')
                   (fun _ h' => Lg (live h) h')).
-  { unfold iter_ctor_fixed. eapply sat_construct.
-    - apply iter_body_fixed_sat. apply Lg_arm. apply Lg_self. exact W.
+  { unfold iter_ctor. eapply sat_construct.
+    - apply iter_body_sat. apply Lg_arm. apply Lg_self. exact W.
     - cbn beta. intros _ s' h' H; exact H.
     - cbn beta. intros s' h' H; exact H. }
-  destruct (iter_ctor_fixed src tt (arm k h)) as [t u h'|u h'|h']; cbn [sat] in H.
+  destruct (iter_ctor src tt (arm k h)) as [t u h'|u h'|h']; cbn [sat] in H.
   - destruct H as [I HL]. apply Lg_out in HL. tauto.
   - exact H.
   - exact H.
 Qed.
 
-(* ---------- exact behaviour for a given fault position ---------- *)
+(* ---------- exact behaviour for a given fault position: program text before
+   commit b69eb94 / 53a83c0 (old_init, old_iter_ctor) ---------- *)
 
 Lemma copy_elems_fail_exact : forall ps s h j,
   fuel h = Some j -> (j < length ps)%nat ->
@@ -776,22 +822,22 @@ Proof.
     destruct (fuel h) as [[|j]|]; cbn [tick length] in *; try lia; try exact I.
 Qed.
 
-Lemma init_fail1_exact : forall n s h,
+Lemma old_init_fail1_exact : forall n s h,
   n <> 0 -> fuel h = Some 0%nat ->
-  exists h', init n s h = Exn (reset_tree s) h' /\ live h' = live h.
+  exists h', old_init n s h = Exn (reset_tree s) h' /\ live h' = live h.
 Proof.
-  intros n s h Hn Hf. unfold init, init_gen. rewrite bind_modify. cbv iota. rewrite bind_ret.
+  intros n s h Hn Hf. unfold old_init, init_gen. rewrite bind_modify. cbv iota. rewrite bind_ret.
   destruct (N.eqb_spec n 0) as [E|E]; [contradiction|]. cbv zeta.
   erewrite bind_exn_eq.
   2:{ erewrite bind_exn_eq by (apply alloc_fail_eq; exact Hf). reflexivity. }
   eexists. split; reflexivity.
 Qed.
 
-Lemma init_fail2_exact : forall n s h,
+Lemma old_init_fail2_exact : forall n s h,
   n <> 0 -> wf h -> fuel h = Some 1%nat ->
-  exists h', init n s h = Exn (reset_tree s) h' /\ live h' = live h.
+  exists h', old_init n s h = Exn (reset_tree s) h' /\ live h' = live h.
 Proof.
-  intros n s h Hn W Hf. unfold init, init_gen. rewrite bind_modify. cbv iota. rewrite bind_ret.
+  intros n s h Hn W Hf. unfold old_init, init_gen. rewrite bind_modify. cbv iota. rewrite bind_ret.
   destruct (N.eqb_spec n 0) as [E|E]; [contradiction|]. cbv zeta.
   erewrite bind_exn_eq.
   2:{ erewrite bind_ret_eq by (apply alloc_ok_eq; rewrite Hf; discriminate).
@@ -805,17 +851,17 @@ Proof.
   eexists. split; reflexivity.
 Qed.
 
-Lemma init_ok_exact : forall n s h,
+Lemma old_init_ok_exact : forall n s h,
   n <> 0 ->
   match fuel h with None => True | Some j => (2 <= j)%nat end ->
   exists bi bd h' e1 e2,
-    init n s h = Ret tt (mkTree (Some bi) (Some bd) (rsz_for n) [] (Some bi, rsz_for n)) h' /\
+    old_init n s h = Ret tt (mkTree (Some bi) (Some bd) (rsz_for n) [] (Some bi, rsz_for n)) h' /\
     fuel h' = tick (tick (fuel h)) /\
     live h' = e2 :: e1 :: live h /\
     snd e1 = (LNew, sz_dim * (rsz_for n + 2)) /\
     snd e2 = (LNew, sz_coeff * (rsz_for n + 1)).
 Proof.
-  intros n s h Hn Hf. unfold init, init_gen. rewrite bind_modify. cbv iota. rewrite bind_ret.
+  intros n s h Hn Hf. unfold old_init, init_gen. rewrite bind_modify. cbv iota. rewrite bind_ret.
   destruct (N.eqb_spec n 0) as [E|E]; [contradiction|]. cbv zeta.
   erewrite bind_ret_eq.
   2:{ erewrite bind_ret_eq.
@@ -846,9 +892,9 @@ Qed.
 (* k = 0 or k > n+2: normal return; k = 1, 2: exception, nothing leaked (init's
    own guard); k = 2 + j (1 <= j <= n): exception and exactly the first k-1
    requests' blocks (indexes, data, j-1 elements) are left live. *)
-Theorem cotree_iter_ctor_leaks_exactly : forall src k h,
+Theorem old_cotree_iter_ctor_leaks_exactly : forall src k h,
   wf h -> src <> [] ->
-  match iter_ctor src tt (arm k h) with
+  match old_iter_ctor src tt (arm k h) with
   | Ret t _ h' => (k = 0 \/ length src + 2 < k)%nat
   | Exn _ h' =>
       (1 <= k <= length src + 2)%nat /\
@@ -861,37 +907,37 @@ Proof.
   intros src k h W Hs.
   assert (Hn : N.eqb (N.of_nat (length src)) 0 = false).
   { destruct src; [contradiction|]. cbn [length]. apply N.eqb_neq. lia. }
-  unfold iter_ctor, construct, iter_body. cbv zeta. rewrite Hn.
+  unfold old_iter_ctor, construct, old_iter_body. cbv zeta. rewrite Hn.
   rewrite bind_modify, bind_get. cbn [rsz].
   pose proof (iter_reserved_nonzero (N.of_nat (length src))) as HR.
   destruct k as [|[|[|j]]].
   - (* no fault *)
-    match goal with |- context [bind (init ?R) _ ?s0 ?h0] =>
-      destruct (init_ok_exact R s0 h0 HR) as (bi & bd & h1 & e1 & e2 & E & Hf & L & _) end.
+    match goal with |- context [bind (old_init ?R) _ ?s0 ?h0] =>
+      destruct (old_init_ok_exact R s0 h0 HR) as (bi & bd & h1 & e1 & e2 & E & Hf & L & _) end.
     { cbn. exact I. }
-    erewrite bind_ret_eq by exact E. unfold iter_fill. rewrite bind_get.
+    erewrite bind_ret_eq by exact E. unfold old_iter_fill. rewrite bind_get.
     match goal with |- context [copy_elems ?ps ?s1 h1] =>
       destruct (copy_elems_ok_exact ps s1 h1) as (s' & h' & E2) end.
     { rewrite Hf. cbn. exact I. }
     rewrite E2. left; reflexivity.
   - (* k = 1 *)
-    match goal with |- context [bind (init ?R) _ ?s0 ?h0] =>
-      destruct (init_fail1_exact R s0 h0 HR) as (h1 & E & L) end.
+    match goal with |- context [bind (old_init ?R) _ ?s0 ?h0] =>
+      destruct (old_init_fail1_exact R s0 h0 HR) as (h1 & E & L) end.
     { reflexivity. }
     erewrite bind_exn_eq by exact E.
     split; [lia|]. exists []. split; [exact L | reflexivity].
   - (* k = 2 *)
-    match goal with |- context [bind (init ?R) _ ?s0 ?h0] =>
-      destruct (init_fail2_exact R s0 h0 HR) as (h1 & E & L) end.
+    match goal with |- context [bind (old_init ?R) _ ?s0 ?h0] =>
+      destruct (old_init_fail2_exact R s0 h0 HR) as (h1 & E & L) end.
     { apply wf_arm; exact W. }
     { reflexivity. }
     erewrite bind_exn_eq by exact E.
     split; [lia|]. exists []. split; [exact L | reflexivity].
   - (* k = 3 + j *)
-    match goal with |- context [bind (init ?R) _ ?s0 ?h0] =>
-      destruct (init_ok_exact R s0 h0 HR) as (bi & bd & h1 & e1 & e2 & E & Hf & L & S1 & S2) end.
+    match goal with |- context [bind (old_init ?R) _ ?s0 ?h0] =>
+      destruct (old_init_ok_exact R s0 h0 HR) as (bi & bd & h1 & e1 & e2 & E & Hf & L & S1 & S2) end.
     { cbn. lia. }
-    erewrite bind_ret_eq by exact E. unfold iter_fill. rewrite bind_get.
+    erewrite bind_ret_eq by exact E. unfold old_iter_fill. rewrite bind_get.
     cbn [fuel arm tick] in Hf.
     destruct (Nat.lt_ge_cases j (length src)) as [Hlt|Hge].
     + match goal with |- context [copy_elems ?ps ?s1 h1] =>
@@ -910,7 +956,7 @@ Proof.
       rewrite E2. right. lia.
 Qed.
 
-Example cotree_iter_ctor_leaks_exactly_hyp_sat : wf empty_heap /\ [1; 1] <> @nil N.
+Example old_cotree_iter_ctor_leaks_exactly_hyp_sat : wf empty_heap /\ [1; 1] <> @nil N.
 Proof. split; [exact wf_empty | discriminate]. Qed.
 
 (* ========================================================================= *)
@@ -992,28 +1038,32 @@ Definition copy_ctor (rszy : N) (used : list (N * N)) : M unit tree :=
   construct empty_tree (init rszy ;;; copy_data_from used).
 
 (* CO_Tree::operator=(const CO_Tree& y)   CO_Tree_inlines.hh:57
-   [fixed] selects init as written / init with the minimal fix (copy_data_from's
-   handler calls init(0), on which both versions agree: init_fixed0_eq). *)
+   [fixed] = true: the CURRENT code (init of commit b69eb94);
+   [fixed] = false: program text before commit b69eb94 / 53a83c0 (old_init).
+   copy_data_from's handler calls init(0), on which both versions agree
+   (old_init0_eq). *)
 Definition assign_gen (fixed : bool) (rszy : N) (used : list (N * N)) : M tree unit :=
   destroy ;;; init_gen fixed rszy ;;; copy_data_from used.
 
-Definition assign : N -> list (N * N) -> M tree unit := assign_gen false.
-Definition assign_fixed : N -> list (N * N) -> M tree unit := assign_gen true.
+Definition assign : N -> list (N * N) -> M tree unit := assign_gen true.
+(* program text before commit b69eb94 / 53a83c0 *)
+Definition old_assign : N -> list (N * N) -> M tree unit := assign_gen false.
 
-Lemma init_fixed0_eq : forall s h, init_fixed 0 s h = init 0 s h.
+Lemma old_init0_eq : forall s h, old_init 0 s h = init 0 s h.
 Proof. reflexivity. Qed.
 
-(* init throws only on its first or second request *)
-Lemma init_exn_fuel : forall n s h s' h',
-  init n s h = Exn s' h' -> fuel h = Some 0%nat \/ fuel h = Some 1%nat.
+(* program text before commit b69eb94 / 53a83c0:
+   old_init throws only on its first or second request *)
+Lemma old_init_exn_fuel : forall n s h s' h',
+  old_init n s h = Exn s' h' -> fuel h = Some 0%nat \/ fuel h = Some 1%nat.
 Proof.
   intros n s h s' h' H.
-  destruct (N.eq_dec n 0) as [->|Hn]; [rewrite init0_eq in H; discriminate H|].
+  destruct (N.eq_dec n 0) as [->|Hn]; [rewrite old_init0_eq, init0_eq in H; discriminate H|].
   destruct (fuel h) as [[|[|j]]|] eqn:Ef; auto.
-  - destruct (init_ok_exact n s h Hn) as (bi & bd & h1 & e1 & e2 & E & _).
+  - destruct (old_init_ok_exact n s h Hn) as (bi & bd & h1 & e1 & e2 & E & _).
     { rewrite Ef. lia. }
     rewrite E in H. discriminate H.
-  - destruct (init_ok_exact n s h Hn) as (bi & bd & h1 & e1 & e2 & E & _).
+  - destruct (old_init_ok_exact n s h Hn) as (bi & bd & h1 & e1 & e2 & E & _).
     { rewrite Ef. exact I. }
     rewrite E in H. discriminate H.
 Qed.
@@ -1025,15 +1075,35 @@ Lemma init_then_copy_sat : forall rszy used s h X,
       (fun _ s' h' => tree_inv s' /\ Permutation (map fst (elems s')) (map fst used) /\
                       rsz s' = (if N.eqb rszy 0 then 0 else rsz_for rszy) /\
                       Lg (owned_tree s' ++ X) h')
+      (fun s' h' => s' = empty_tree /\ Lg X h').
+Proof.
+  intros rszy used s h X Hy HL.
+  eapply sat_bind.
+  - apply init_sat; exact HL.
+  - cbn beta. intros s' h' H; exact H.
+  - cbn beta. intros _ s1 h1 [I [He [Hr HL1]]]. rewrite <- Hr.
+    apply copy_data_from_sat; try assumption.
+    intros Hu. rewrite Hr. specialize (Hy Hu).
+    destruct (N.eqb_spec rszy 0) as [E|E]; [contradiction|]. apply rsz_for_nonzero.
+Qed.
+
+(* program text before commit b69eb94 / 53a83c0 *)
+Lemma old_init_then_copy_sat : forall rszy used s h X,
+  (used <> [] -> rszy <> 0) ->
+  Lg X h ->
+  sat ((old_init rszy ;;; copy_data_from used) s h)
+      (fun _ s' h' => tree_inv s' /\ Permutation (map fst (elems s')) (map fst used) /\
+                      rsz s' = (if N.eqb rszy 0 then 0 else rsz_for rszy) /\
+                      Lg (owned_tree s' ++ X) h')
       (fun s' h' => (s' = empty_tree \/
                      (s' = reset_tree s /\ (fuel h = Some 0%nat \/ fuel h = Some 1%nat)))
                     /\ Lg X h').
 Proof.
   intros rszy used s h X Hy HL.
   eapply sat_bind_eq.
-  - apply init_sat; exact HL.
+  - apply old_init_sat; exact HL.
   - cbn beta. intros s' h' Ei [Es H]. subst s'. split; [|exact H].
-    right. split; [reflexivity|]. eapply init_exn_fuel. exact Ei.
+    right. split; [reflexivity|]. eapply old_init_exn_fuel. exact Ei.
   - cbn beta. intros u s1 h1 _ [I [He [Hr HL1]]]. rewrite <- Hr.
     eapply sat_conseq.
     + apply copy_data_from_sat; try eassumption.
@@ -1041,25 +1111,6 @@ Proof.
       destruct (N.eqb_spec rszy 0) as [E|E]; [contradiction|]. apply rsz_for_nonzero.
     + cbn beta. intros a s' h' H; exact H.
     + cbn beta. intros s' h' [-> H]. split; [left; reflexivity | exact H].
-Qed.
-
-Lemma init_fixed_then_copy_sat : forall rszy used s h X,
-  (used <> [] -> rszy <> 0) ->
-  Lg X h ->
-  sat ((init_fixed rszy ;;; copy_data_from used) s h)
-      (fun _ s' h' => tree_inv s' /\ Permutation (map fst (elems s')) (map fst used) /\
-                      rsz s' = (if N.eqb rszy 0 then 0 else rsz_for rszy) /\
-                      Lg (owned_tree s' ++ X) h')
-      (fun s' h' => s' = empty_tree /\ Lg X h').
-Proof.
-  intros rszy used s h X Hy HL.
-  eapply sat_bind.
-  - apply init_fixed_sat; exact HL.
-  - cbn beta. intros s' h' H; exact H.
-  - cbn beta. intros _ s1 h1 [I [He [Hr HL1]]]. rewrite <- Hr.
-    apply copy_data_from_sat; try assumption.
-    intros Hu. rewrite Hr. specialize (Hy Hu).
-    destruct (N.eqb_spec rszy 0) as [E|E]; [contradiction|]. apply rsz_for_nonzero.
 Qed.
 
 Theorem cotree_copy_ctor_unwind_balanced : forall rszy used k h,
@@ -1105,9 +1156,9 @@ Proof.
   destruct (N.eqb (rsz t) 0); [apply keeps_fuel_ret | apply keeps_fuel_release].
 Qed.
 
-Lemma assign_sat : forall rszy used t h X,
+Lemma old_assign_sat : forall rszy used t h X,
   tree_inv t -> Lg (owned_tree t ++ X) h -> (used <> [] -> rszy <> 0) ->
-  sat (assign rszy used t h)
+  sat (old_assign rszy used t h)
       (fun _ t' h' => tree_inv t' /\ Permutation (map fst (elems t')) (map fst used) /\
                       rsz t' = (if N.eqb rszy 0 then 0 else rsz_for rszy) /\
                       Lg (owned_tree t' ++ X) h')
@@ -1115,24 +1166,25 @@ Lemma assign_sat : forall rszy used t h X,
                      (t' = reset_tree t /\ (fuel h = Some 0%nat \/ fuel h = Some 1%nat)))
                     /\ Lg X h').
 Proof.
-  intros rszy used t h X I HL Hy. unfold assign, assign_gen.
+  intros rszy used t h X I HL Hy. unfold old_assign, assign_gen.
   eapply sat_bind_eq.
   - apply destroy_sat; [exact I | exact HL].
   - intros ? ? _ F; contradiction.
   - cbn beta. intros u s1 h1 Ed [Es HL1]. subst s1.
     pose proof (keeps_fuel_destroy t h) as Hf. rewrite Ed in Hf. rewrite <- Hf.
-    apply (init_then_copy_sat rszy used t h1 X Hy HL1).
+    apply (old_init_then_copy_sat rszy used t h1 X Hy HL1).
 Qed.
 
-(* receiver t owns its blocks in h; X = the rest of the ledger.
-   AS WRITTEN: the ledger is balanced for every k, but the receiver is a valid
+(* program text before commit b69eb94 / 53a83c0.
+   receiver t owns its blocks in h; X = the rest of the ledger.
+   OLD TEXT: the ledger is balanced for every k, but the receiver is a valid
    tree after a failure only when init did not throw (k = 0 or k >= 3);
    otherwise it is [reset_tree t]: empty fields, STALE cached end iterators
    (pointing into the freed indexes array of the old tree). *)
-Theorem cotree_assign_unwind_balanced_partial : forall rszy used t k h X,
+Theorem old_cotree_assign_unwind_balanced_partial : forall rszy used t k h X,
   wf h -> tree_inv t -> ledger_eq (live h) (owned_tree t ++ X) ->
   (used <> [] -> rszy <> 0) ->
-  match assign rszy used t (arm k h) with
+  match old_assign rszy used t (arm k h) with
   | Ret _ t' h' => wf h' /\ ledger_eq (live h') (owned_tree t' ++ X)
                    /\ tree_inv t' /\ NoDup (map fst (owned_tree t'))
                    /\ Permutation (map fst (elems t')) (map fst used)
@@ -1144,8 +1196,8 @@ Theorem cotree_assign_unwind_balanced_partial : forall rszy used t k h X,
   end.
 Proof.
   intros rszy used t k h X W I P Hy.
-  pose proof (assign_sat rszy used t (arm k h) X I (Lg_arm k _ _ (conj W P)) Hy) as H.
-  destruct (assign rszy used t (arm k h)) as [a t' h'|t' h'|h']; cbn [sat] in H.
+  pose proof (old_assign_sat rszy used t (arm k h) X I (Lg_arm k _ _ (conj W P)) Hy) as H.
+  destruct (old_assign rszy used t (arm k h)) as [a t' h'|t' h'|h']; cbn [sat] in H.
   - destruct H as [I' [Hp [Hr HL]]]. apply Lg_out in HL. tauto.
   - destruct H as [D [W' P']]. split; [exact W'|]. split; [exact P'|].
     assert (D' : t' = empty_tree \/ (t' = reset_tree t /\ (k = 1 \/ k = 2)%nat)).
@@ -1158,7 +1210,7 @@ Proof.
   - exact H.
 Qed.
 
-Example cotree_assign_hyp_sat :
+Example old_cotree_assign_hyp_sat :
   wf empty_heap /\ tree_inv empty_tree /\
   ledger_eq (live empty_heap) (owned_tree empty_tree ++ []) /\
   ([(1, 1)] <> @nil (N * N) -> 1 <> 0).
@@ -1167,12 +1219,13 @@ Proof.
   split; [apply Permutation_refl | discriminate].
 Qed.
 
-(* the full statement (ledger AND valid receiver for every k) is FALSE as written *)
-Definition cotree_assign_unwind_balanced_full : Prop :=
+(* program text before commit b69eb94 / 53a83c0: the full statement (ledger AND
+   valid receiver for every k) is FALSE for the old text *)
+Definition old_cotree_assign_unwind_balanced_full : Prop :=
   forall rszy used t k h X,
   wf h -> tree_inv t -> ledger_eq (live h) (owned_tree t ++ X) ->
   (used <> [] -> rszy <> 0) ->
-  match assign rszy used t (arm k h) with
+  match old_assign rszy used t (arm k h) with
   | Ret _ t' h' => wf h' /\ ledger_eq (live h') (owned_tree t' ++ X) /\ tree_inv t'
   | Exn t' h' => wf h' /\ ledger_eq (live h') X /\ tree_inv t'
   | Bad _ => False
@@ -1198,11 +1251,11 @@ Proof.
   - cbn. apply perm_swap.
 Qed.
 
-Theorem cotree_assign_usable_after_refuted :
+Theorem old_cotree_assign_usable_after_refuted :
   exists rszy used t k h X,
     wf h /\ tree_inv t /\ ledger_eq (live h) (owned_tree t ++ X) /\
     (used <> [] -> rszy <> 0) /\
-    exists t' h', assign rszy used t (arm k h) = Exn t' h' /\ ~ tree_inv t'.
+    exists t' h', old_assign rszy used t (arm k h) = Exn t' h' /\ ~ tree_inv t'.
 Proof.
   exists 1, [], wit_tree, 1%nat, wit_heap, [].
   destruct wit_ok as [W [I P]].
@@ -1211,18 +1264,19 @@ Proof.
   intros [_ [_ [_ H]]]. cbn in H. discriminate H.
 Qed.
 
-Theorem cotree_assign_unwind_balanced_full_refuted : ~ cotree_assign_unwind_balanced_full.
+Theorem old_cotree_assign_unwind_balanced_full_refuted : ~ old_cotree_assign_unwind_balanced_full.
 Proof.
   intro F. destruct wit_ok as [W [I P]].
   specialize (F 1 [] wit_tree 1%nat wit_heap [] W I P (fun H => False_ind _ (H eq_refl))).
   vm_compute in F. destruct F as [_ [_ [_ [_ [_ H]]]]]. discriminate H.
 Qed.
 
-(* with init_fixed: ledger AND valid (empty) receiver for ALL k *)
-Theorem cotree_assign_fixed_unwind_balanced : forall rszy used t k h X,
+(* the CURRENT operator= (init of commit b69eb94): ledger AND valid (empty)
+   receiver for ALL k *)
+Theorem cotree_assign_unwind_balanced : forall rszy used t k h X,
   wf h -> tree_inv t -> ledger_eq (live h) (owned_tree t ++ X) ->
   (used <> [] -> rszy <> 0) ->
-  match assign_fixed rszy used t (arm k h) with
+  match assign rszy used t (arm k h) with
   | Ret _ t' h' => wf h' /\ ledger_eq (live h') (owned_tree t' ++ X)
                    /\ tree_inv t' /\ NoDup (map fst (owned_tree t'))
                    /\ Permutation (map fst (elems t')) (map fst used)
@@ -1232,23 +1286,23 @@ Theorem cotree_assign_fixed_unwind_balanced : forall rszy used t k h X,
   end.
 Proof.
   intros rszy used t k h X W I P Hy.
-  assert (H : sat (assign_fixed rszy used t (arm k h))
+  assert (H : sat (assign rszy used t (arm k h))
                   (fun _ t' h' => tree_inv t' /\ Permutation (map fst (elems t')) (map fst used) /\
                                   rsz t' = (if N.eqb rszy 0 then 0 else rsz_for rszy) /\
                                   Lg (owned_tree t' ++ X) h')
                   (fun t' h' => t' = empty_tree /\ Lg X h')).
-  { unfold assign_fixed, assign_gen. eapply sat_bind.
+  { unfold assign, assign_gen. eapply sat_bind.
     - apply destroy_sat; [exact I|]. apply Lg_arm. split; [exact W | exact P].
     - intros ? ? F; contradiction.
-    - cbn beta. intros _ s1 h1 [_ HL1]. apply init_fixed_then_copy_sat; assumption. }
-  destruct (assign_fixed rszy used t (arm k h)) as [a t' h'|t' h'|h']; cbn [sat] in H.
+    - cbn beta. intros _ s1 h1 [_ HL1]. apply init_then_copy_sat; assumption. }
+  destruct (assign rszy used t (arm k h)) as [a t' h'|t' h'|h']; cbn [sat] in H.
   - destruct H as [I' [Hp [Hr HL]]]. apply Lg_out in HL. tauto.
   - destruct H as [-> [W' P']]. split; [exact W'|]. split; [exact P'|].
     split; [reflexivity | apply tree_inv_empty].
   - exact H.
 Qed.
 
-Example cotree_assign_fixed_hyp_sat :
+Example cotree_assign_hyp_sat :
   wf wit_heap /\ tree_inv wit_tree /\ ledger_eq (live wit_heap) (owned_tree wit_tree ++ []) /\
   ([(1, 1)] <> @nil (N * N) -> 1 <> 0).
 Proof.
@@ -2109,8 +2163,9 @@ Definition tr_init (n k : N) : obs :=
 Definition tr_iter_ctor (src : list N) (k : N) : obs :=
   observe_c tree_ids (iter_ctor src tt (start k empty_heap)).
 
-Definition tr_iter_ctor_fixed (src : list N) (k : N) : obs :=
-  observe_c tree_ids (iter_ctor_fixed src tt (start k empty_heap)).
+(* program text before commit b69eb94 / 53a83c0 *)
+Definition tr_old_iter_ctor (src : list N) (k : N) : obs :=
+  observe_c tree_ids (old_iter_ctor src tt (start k empty_heap)).
 
 (* used : (dfs position, limbs), any order *)
 Definition tr_copy_ctor (rsz0 : N) (used : list (N * N)) (k : N) : obs :=
@@ -2127,6 +2182,12 @@ Definition tr_assign (rsz_this : N) (used_this : list (N * N))
            (rsz_y : N) (used_y : list (N * N)) (k : N) : obs :=
   with_tree rsz_this used_this (fun t h0 =>
     observe tree_ids (assign rsz_y (norm_used rsz_y used_y) t (start k h0))).
+
+(* program text before commit b69eb94 / 53a83c0 *)
+Definition tr_old_assign (rsz_this : N) (used_this : list (N * N))
+           (rsz_y : N) (used_y : list (N * N)) (k : N) : obs :=
+  with_tree rsz_this used_this (fun t h0 =>
+    observe tree_ids (old_assign rsz_y (norm_used rsz_y used_y) t (start k h0))).
 
 Definition tr_rebuild_bigger (rsz0 : N) (used : list (N * N)) (k : N) : obs :=
   with_tree rsz0 used (fun t h0 => observe tree_ids (rebuild_bigger t (start k h0))).
@@ -2196,19 +2257,26 @@ Example ex_tr_init :
    (true, [EvAlloc LNew 72; EvAlloc LNew 128], 0, 2)).
 Proof. vm_compute. reflexivity. Qed.
 
-(* the defect: k = 3, 4 leave 2, 3 blocks behind *)
+(* current code (measured on the repaired library): nothing is left behind *)
 Example ex_tr_iter_ctor :
-  map (tr_iter_ctor [1; 1]) [2; 3; 4; 5] =
+  map (tr_iter_ctor [1; 1]) [1; 2; 3; 4; 5] =
+  [(false, [EvFail LNew 40], 0, 0);
+   (false, [EvAlloc LNew 40; EvFail LNew 64; EvFree LNew 40], 0, 0);
+   (false, [EvAlloc LNew 40; EvAlloc LNew 64; EvFail LGmp 8;
+            EvFree LNew 40; EvFree LNew 64], 0, 0);
+   (false, [EvAlloc LNew 40; EvAlloc LNew 64; EvAlloc LGmp 8; EvFail LGmp 8;
+            EvFree LGmp 8; EvFree LNew 40; EvFree LNew 64], 0, 0);
+   (true, [EvAlloc LNew 40; EvAlloc LNew 64; EvAlloc LGmp 8; EvAlloc LGmp 8], 0, 4)].
+Proof. vm_compute. reflexivity. Qed.
+
+(* program text before commit b69eb94 / 53a83c0: the defect, k = 3, 4 leave 2, 3
+   blocks behind *)
+Example ex_tr_old_iter_ctor :
+  map (tr_old_iter_ctor [1; 1]) [2; 3; 4; 5] =
   [(false, [EvAlloc LNew 40; EvFail LNew 64; EvFree LNew 40], 0, 0);
    (false, [EvAlloc LNew 40; EvAlloc LNew 64; EvFail LGmp 8], 2, 0);
    (false, [EvAlloc LNew 40; EvAlloc LNew 64; EvAlloc LGmp 8; EvFail LGmp 8], 3, 0);
    (true, [EvAlloc LNew 40; EvAlloc LNew 64; EvAlloc LGmp 8; EvAlloc LGmp 8], 0, 4)].
-Proof. vm_compute. reflexivity. Qed.
-
-Example ex_tr_iter_ctor_fixed :
-  tr_iter_ctor_fixed [1; 1] 4 =
-  (false, [EvAlloc LNew 40; EvAlloc LNew 64; EvAlloc LGmp 8; EvFail LGmp 8;
-           EvFree LGmp 8; EvFree LNew 40; EvFree LNew 64], 0, 0).
 Proof. vm_compute. reflexivity. Qed.
 
 Example ex_tr_copy_ctor :
@@ -2309,11 +2377,11 @@ Example cotree_destroy_hyp_sat :
   ledger_eq (live empty_heap) (owned_tree empty_tree ++ []).
 Proof. exact cotree_rebuild_bigger_hyp_sat. Qed.
 
-(* the only hypothesis of cotree_iter_ctor_unwind_partial and
-   cotree_iter_ctor_fixed_unwind_balanced is [wf h] *)
-Example cotree_iter_ctor_unwind_partial_hyp_sat : wf empty_heap.
+(* the only hypothesis of old_cotree_iter_ctor_unwind_partial and
+   cotree_iter_ctor_unwind_balanced is [wf h] *)
+Example old_cotree_iter_ctor_unwind_partial_hyp_sat : wf empty_heap.
 Proof. exact wf_empty. Qed.
-Example cotree_iter_ctor_fixed_hyp_sat : wf empty_heap.
+Example cotree_iter_ctor_hyp_sat : wf empty_heap.
 Proof. exact wf_empty. Qed.
 
 (* ========================================================================= *)
@@ -2399,12 +2467,12 @@ Definition tr_assign_valid (rsz_this : N) (used_this : list (N * N))
   | _ => false
   end.
 
-(* the same with the fixed init: always true (cotree_assign_fixed_unwind_balanced) *)
-Definition tr_assign_fixed_valid (rsz_this : N) (used_this : list (N * N))
+(* program text before commit b69eb94 / 53a83c0 *)
+Definition tr_old_assign_valid (rsz_this : N) (used_this : list (N * N))
            (rsz_y : N) (used_y : list (N * N)) (k : N) : bool :=
   match copy_ctor rsz_this (norm_used rsz_this used_this) tt empty_heap with
   | Ret t _ h0 =>
-      match assign_fixed rsz_y (norm_used rsz_y used_y) t (start k h0) with
+      match old_assign rsz_y (norm_used rsz_y used_y) t (start k h0) with
       | Ret _ t' _ => tree_valid t'
       | Exn t' _ => tree_valid t'
       | Bad _ => false
@@ -2412,21 +2480,31 @@ Definition tr_assign_fixed_valid (rsz_this : N) (used_this : list (N * N))
   | _ => false
   end.
 
-(* as written: invalid for k = 1, 2 (init throws), valid otherwise *)
+(* current code: valid at every k (cotree_assign_unwind_balanced) *)
 Example ex_tr_assign_valid :
   map (tr_assign_valid 15 [(4,1);(6,1);(8,1);(10,1);(11,2);(12,1);(13,1);(14,1);(15,3)]
                        7 [(2, 2); (4, 1); (6, 1); (7, 1)]) [0; 1; 2; 3; 4; 5; 6; 7] =
-  [true; false; false; true; true; true; true; true].
-Proof. vm_compute. reflexivity. Qed.
-
-Example ex_tr_assign_fixed_valid :
-  map (tr_assign_fixed_valid 15 [(4,1);(6,1);(8,1);(10,1);(11,2);(12,1);(13,1);(14,1);(15,3)]
-                             7 [(2, 2); (4, 1); (6, 1); (7, 1)]) [0; 1; 2; 3; 4; 5; 6; 7] =
   [true; true; true; true; true; true; true; true].
 Proof. vm_compute. reflexivity. Qed.
 
-(* an EMPTY receiver stays valid even as written (its stale iterators are those
-   of the empty tree) *)
-Example ex_tr_assign_valid_empty_receiver :
-  map (tr_assign_valid 0 [] 7 [(2, 2)]) [1; 2; 3] = [true; true; true].
+(* program text before commit b69eb94 / 53a83c0: invalid for k = 1, 2 (old_init
+   throws), valid otherwise *)
+Example ex_tr_old_assign_valid :
+  map (tr_old_assign_valid 15 [(4,1);(6,1);(8,1);(10,1);(11,2);(12,1);(13,1);(14,1);(15,3)]
+                           7 [(2, 2); (4, 1); (6, 1); (7, 1)]) [0; 1; 2; 3; 4; 5; 6; 7] =
+  [true; false; false; true; true; true; true; true].
+Proof. vm_compute. reflexivity. Qed.
+
+(* an EMPTY receiver stayed valid even with the old text (its stale iterators
+   were those of the empty tree) *)
+Example ex_tr_old_assign_valid_empty_receiver :
+  map (tr_old_assign_valid 0 [] 7 [(2, 2)]) [1; 2; 3] = [true; true; true].
+Proof. vm_compute. reflexivity. Qed.
+
+(* the traces of operator= are the same for both texts *)
+Example ex_tr_old_assign_same_trace :
+  map (tr_old_assign 15 [(4,1);(6,1);(8,1);(10,1);(11,2);(12,1);(13,1);(14,1);(15,3)]
+                     7 [(2, 2); (4, 1); (6, 1); (7, 1)]) [0; 1; 2; 3; 4; 5; 6; 7] =
+  map (tr_assign 15 [(4,1);(6,1);(8,1);(10,1);(11,2);(12,1);(13,1);(14,1);(15,3)]
+                 7 [(2, 2); (4, 1); (6, 1); (7, 1)]) [0; 1; 2; 3; 4; 5; 6; 7].
 Proof. vm_compute. reflexivity. Qed.
